@@ -73,7 +73,7 @@ def run(ctx) -> None:
     ctx.rule("R5", "prerequisite: the comparator's order laws and PEP 440 segment rules (C16/R1-R4)")
     ctx.rule("R6", "prerequisite: the start version is the config value or the newest tag in scope (C09/R1-R2)")
     from sa.report import run_prerequisite
-    run_prerequisite(ctx, "C16", ("R1", "R2", "R3", "R4", "R7", "R8"), "R5")
+    run_prerequisite(ctx, "C16", ("R1", "R2", "R3", "R4", "R7", "R8", "R9"), "R5")
     # 'the version it started from (the config value or the newest VCS tag, per tag scope)': how that version is chosen
     # is C09's subject; its scope/selection rules are a precondition here (a failed listing must not read as 'no tags',
     # the default-scope comparison and the newest-tag selection are made under parse_version)
@@ -256,6 +256,28 @@ def run(ctx) -> None:
         for t in trues:
             r_ = gpc.reach(t)
             ctx.check("R3", bool(iv_atom) and r_.implies(BF.var(iv_atom[0])), "gate: `return True` only when is_valid(...) held",
+                      f"{GATE}: returns True although the new version is not valid for the pattern", r_.to_dnf(), loc=gate.loc(gcfg.nodes[t].ast))
+        from sa.report import run_prerequisite as _rp
+        _rp(ctx, "C09", ("R3", "R4"), "R3")
+    elif not direct_parse and sorted(unparse(c_.func) for c_ in iv_calls) == ["v1version.is_valid", "v2version.is_valid"]:
+        # the same, with the engine chosen by a branch: <v2version|v1version>.is_valid(new_version, pattern), one call per engine
+        isnew = [a for a in gpc.atoms if a == "is_new_pattern"]
+        ctx.require(len(isnew) == 1, "gate: the engine branch does not test is_new_pattern")
+        for ivc in iv_calls:
+            eng = unparse(ivc.func.value)
+            ctx.check("R3", [unparse(a_) for a_ in ivc.args] == [p_new, p_pat], f"gate: {eng}.is_valid({p_new}, {p_pat})",
+                      f"{GATE}: the new version is not validated against the given pattern", unparse(ivc), loc=gate.loc(ivc))
+            r = gpc.reach(gcfg.node_containing(ivc)).project(["is_new_pattern"])
+            want = BF.var("is_new_pattern") if eng == "v2version" else ~BF.var("is_new_pattern")
+            ctx.check("R3", r.equiv(want), f"gate: {eng}.is_valid asked exactly when is_new_pattern is {'true' if eng == 'v2version' else 'false'}",
+                      f"{GATE}: engine selection for the validity test is wrong", f"{eng} reached iff {r.to_dnf()}", loc=gate.loc(ivc))
+        iv_atoms = [a_ for a_ in gpc.atoms if a_.replace(" ", "") in {unparse(c_).replace(" ", "") for c_ in iv_calls}]
+        for t in trues:
+            r_ = gpc.reach(t)
+            held = BF.false()
+            for a_ in iv_atoms:
+                held = held | BF.var(a_)
+            ctx.check("R3", len(iv_atoms) == 2 and r_.implies(held), "gate: `return True` only when is_valid(...) held",
                       f"{GATE}: returns True although the new version is not valid for the pattern", r_.to_dnf(), loc=gate.loc(gcfg.nodes[t].ast))
         from sa.report import run_prerequisite as _rp
         _rp(ctx, "C09", ("R3", "R4"), "R3")
